@@ -395,7 +395,8 @@ class Service(object):
         # - disable cache if comparing providers or if after_txid is used and no cache is available
         last_block = None
         last_txid = None
-        if self.min_providers <= 1 and not (after_txid and not db_addr) and caching_enabled:
+        # - only the transactions after after_txid are known then: not a history unless the earlier part is in the cache
+        if self.min_providers <= 1 and not (after_txid and not (db_addr and db_addr.last_block)) and caching_enabled:
             last_block = self.blockcount()
             last_txid = qry_after_txid
             self.complete = True
